@@ -467,6 +467,10 @@ pub fn replay(ctx: &Ctx, engine: &str, case: &J) -> Result<Option<(String, Strin
     if engine == "client-threads-on-shared-locks" {
         return replay_guarded::<ThreadsCase>(ctx, case, |c| run_threads_case(ctx, c));
     }
+    if engine == "transports-tcp-line-that-is-no-text" {
+        let srv = TServer::start(ctx);
+        return replay_guarded::<NoTextCase>(ctx, case, |c| run_no_text_case(&srv, c));
+    }
     if engine == "transports-tcp-pipelines-and-segments" {
         let srv = TServer::start(ctx);
         return replay_guarded::<PipeCase>(ctx, case, |c| run_pipe_case(&srv, c));
@@ -859,6 +863,41 @@ fn threads_family(ctx: &Ctx) -> Vec<ThreadsCase> {
     v
 }
 
+/// every line of a TCP connection is answered, also one that is no text: a line of bytes that are no UTF-8 between two
+/// commands gets an answer of its own (an error), the commands around it get theirs
+#[derive(Clone, Debug, Serialize, Deserialize)]
+pub struct NoTextCase {
+    pub bad: Vec<u8>,
+}
+
+pub fn run_no_text_case(srv: &TServer, case: &NoTextCase) -> Outcome {
+    let mut payload: Vec<u8> = b"use-db probe ptok\n".to_vec();
+    payload.extend_from_slice(&case.bad);
+    payload.extend_from_slice(b"\nget k-no-text\n");
+    let mut out = Outcome::ok(true);
+    out.classes.push("tcp-line-that-is-no-text");
+    match crate::transport::tcp_exchange_until(srv.tcp, &payload, "value ", 30_000) {
+        Err(e) => {
+            eprintln!("C10 no-text engine: {}", e);
+            out.nontrivial = false;
+        }
+        Ok(got) => {
+            // greeting ok, ok for use-db, ONE answer for the line that is no text, the value and the ok of the get
+            let lines: Vec<&str> = got.lines().collect();
+            let before_value = lines.iter().take_while(|l| !l.starts_with("value ")).count();
+            if !got.contains("value ") {
+                out.fail = Some(("C10|tcp|no-text-line|session-stopped-answering".to_string(), format!("after a line of {:?} the get that follows was not answered within 30 s: {:?}", case.bad, got)));
+            } else if before_value != 3 {
+                out.fail = Some(("C10|tcp|no-text-line|not-answered".to_string(), format!("use-db, a line of the bytes {:?}, get: {} lines before the value (the greeting, the ok of use-db and one answer for the line that is no text = 3): {:?}", case.bad, before_value, got)));
+            }
+        }
+    }
+    if out.fail.is_none() {
+        out.fail = probe_transports(srv, "tcp|no-text");
+    }
+    out
+}
+
 pub fn run_transports(ctx: &Ctx, rep: &mut Report) {
     let srv = std::cell::RefCell::new(TServer::start(ctx));
     let eval = |c: &TCase| {
@@ -873,6 +912,10 @@ pub fn run_transports(ctx: &Ctx, rep: &mut Report) {
     enumerate(ctx, rep, "transports-fixed", fixed_transport_cases().into_iter(), &eval);
     if rep.failures.is_empty() {
         enumerate(ctx, rep, "transports-tcp-pipelines-and-segments", pipe_family().into_iter(), |c| run_pipe_case(&srv.borrow(), c));
+    }
+    if rep.failures.is_empty() {
+        let cases = vec![NoTextCase { bad: vec![0xff, 0xfe] }, NoTextCase { bad: b"get \xff\xfe\xfd".to_vec() }, NoTextCase { bad: vec![b's', b'e', b't', b' ', b'k', b' ', 0xc3] }, NoTextCase { bad: vec![0x80] }];
+        enumerate(ctx, rep, "transports-tcp-line-that-is-no-text", cases.into_iter(), |c| run_no_text_case(&srv.borrow(), c));
     }
     if !ctx.quick() && rep.failures.is_empty() {
         explore(ctx, rep, "transports-generated", 6000, transport_case_strategy(), &eval);
